@@ -36,25 +36,48 @@ func runPageRank(f func(graph.Directed, float64, float64) map[int64]float64, b *
 	return f(b.g.(graph.Directed), damp, tol)
 }
 
-func checkPageRank(t *vlib.T, b *built) {
+// prCombos is the damping x tolerance grid, or (sub) six pairs of it chosen by rot.
+func prCombos(sub bool, rot int) [][2]float64 {
+	var all [][2]float64
+	for _, d := range prDamps {
+		for _, tol := range prTols {
+			all = append(all, [2]float64{d, tol})
+		}
+	}
+	if !sub {
+		return all
+	}
+	var out [][2]float64
+	for i := 0; i < 6; i++ {
+		out = append(out, all[(rot+i*6)%len(all)])
+	}
+	return out
+}
+
+func checkPageRank(t *vlib.T, b *built, combos [][2]float64) {
 	sp := b.sp
 	n := sp.n
 	var worst float64
-	var dangling int
+	var dangling, zeroSum int
 	for j := 0; j < n; j++ {
 		out := 0
+		var z float64
 		for i := 0; i < n; i++ {
 			if sp.has(j, i) {
 				out++
+				z += sp.a(j, i)
 			}
 		}
 		if out == 0 {
 			dangling++
+		} else if z == 0 {
+			zeroSum++ // out-edges whose weights sum to zero: dangling for the weighted walk
 		}
 	}
-	for _, damp := range prDamps {
+	for _, c := range combos {
+		damp, tol := c[0], c[1]
 		want := pageRankRef(sp, damp)
-		for _, tol := range prTols {
+		{
 			bound := prBound(n, damp, tol)
 			var res [4][]float64
 			k := 0
@@ -103,7 +126,7 @@ func checkPageRank(t *vlib.T, b *built) {
 	if n >= 2 {
 		t.Nontrivial()
 	}
-	t.Outcome(fmt.Sprintf("n=%d dangling=%d weighted=%v err/bound<=%s", n, dangling, sp.weighted, bucket(worst)))
+	t.Outcome(fmt.Sprintf("n=%d dangling=%d zeroOutWeight=%d weighted=%v err/bound<=%s", n, dangling, zeroSum, sp.weighted, bucket(worst)))
 	t.Detail(map[string]any{"graph": sp.String(), "ids": b.ids})
 }
 
@@ -119,23 +142,32 @@ func bucket(x float64) string {
 	return ">1"
 }
 
-func genPageRank(g *vlib.G) {
+func genPageRank(g *vlib.G, large bool) {
 	spaces := []graphSpace{
 		// n = 0 is left out: every variant panics with mat.ErrZeroLength on the
 		// empty graph (gonum has no 0x0 matrices); don't-care, see NOTES.md.
 		{n: 1, directed: true}, {n: 2, directed: true}, {n: 3, directed: true},
 		{n: 2, directed: true, weighted: true}, {n: 3, directed: true, weighted: true},
-		{n: 4, directed: true},
-		{n: 4, directed: true, weighted: true, stride: vlib.Pick(g, 499, 11), offset: 5},
+		// zero-weight edges: a node whose out-weights sum to zero is dangling
+		{n: 2, directed: true, weighted: true, alpha: alpha012},
+		{n: 3, directed: true, weighted: true, alpha: alpha012, rotate: true, sub: true},
+		{n: 4, directed: true, sub: true, large: true},
+		{n: 4, directed: true, weighted: true, stride: vlib.Pick(g, 499, 11), offset: 5, sub: true, large: true},
+		{n: 4, directed: true, weighted: true, zeroOut: true, stride: vlib.Pick(g, 499, 11), offset: 7, sub: true, large: true},
+		{n: 4, directed: true, weighted: true, alpha: alpha01, stride: vlib.Pick(g, 499, 11), offset: 3, sub: true, large: true},
 	}
-	for _, s := range spaces {
-		forGraphs(s, s.stride <= 1 && !s.rotate, func(key string, mk func() *built) {
-			g.Case(key, func(t *vlib.T) { checkPageRank(t, mk()) })
-		})
-		if g.Stopped() {
-			return
-		}
+	eachSpace(g, large, spaces, func(s graphSpace, key string, mk func() *built) {
+		rot := keySum(key)
+		g.Case(key, func(t *vlib.T) { checkPageRank(t, mk(), prCombos(s.sub, rot)) })
+	})
+}
+
+func keySum(key string) int {
+	r := 0
+	for _, c := range []byte(key) {
+		r += int(c)
 	}
+	return r
 }
 
 // ---- HITS ----
@@ -230,19 +262,15 @@ func checkHITS(t *vlib.T, b *built) {
 	t.Detail(map[string]any{"graph": sp.String(), "ids": b.ids})
 }
 
-func genHITS(g *vlib.G) {
-	for _, s := range []graphSpace{
+func genHITS(g *vlib.G, large bool) {
+	eachSpace(g, large, []graphSpace{
 		{n: 0, directed: true}, {n: 1, directed: true}, {n: 2, directed: true}, {n: 3, directed: true},
 		{n: 3, directed: true, weighted: true, stride: 7},
-		{n: 4, directed: true},
-	} {
-		forGraphs(s, s.stride <= 1 && !s.rotate, func(key string, mk func() *built) {
-			g.Case(key, func(t *vlib.T) { checkHITS(t, mk()) })
-		})
-		if g.Stopped() {
-			return
-		}
-	}
+		{n: 3, directed: true, weighted: true, alpha: alpha012, stride: 5, offset: 1}, // weights are ignored, also zero ones
+		{n: 4, directed: true, large: true},
+	}, func(s graphSpace, key string, mk func() *built) {
+		g.Case(key, func(t *vlib.T) { checkHITS(t, mk()) })
+	})
 }
 
 // hitsYields bounds the wait for HITS on the edgeless graph in scheduler
